@@ -37,3 +37,50 @@ def cvc5_check(pc, negated_goal, timeout_ms=30000):
             os.unlink(path)
         except OSError:
             pass
+
+
+def purify(exprs):
+    """replace every maximal application of an uninterpreted function (and every non-arithmetic
+    leaf) by a fresh real/int/bool constant, consistently; sound for proving validity because
+    it only forgets facts about those functions"""
+    cache = {}
+    arith = {z3.Z3_OP_ADD, z3.Z3_OP_SUB, z3.Z3_OP_MUL, z3.Z3_OP_DIV, z3.Z3_OP_UMINUS, z3.Z3_OP_LE, z3.Z3_OP_LT,
+             z3.Z3_OP_GE, z3.Z3_OP_GT, z3.Z3_OP_EQ, z3.Z3_OP_DISTINCT, z3.Z3_OP_AND, z3.Z3_OP_OR, z3.Z3_OP_NOT,
+             z3.Z3_OP_IMPLIES, z3.Z3_OP_ITE, z3.Z3_OP_TO_REAL, z3.Z3_OP_ANUM, z3.Z3_OP_TRUE, z3.Z3_OP_FALSE,
+             z3.Z3_OP_POWER, z3.Z3_OP_IFF if hasattr(z3, 'Z3_OP_IFF') else z3.Z3_OP_EQ}
+
+    def walk(e):
+        if z3.is_quantifier(e) or z3.is_var(e):
+            raise ValueError("quantifier in a pure query")
+        if z3.is_app(e):
+            k = e.decl().kind()
+            if k in arith:
+                ch = [walk(c) for c in e.children()]
+                return e.decl()(*ch) if ch else e
+            if z3.is_rational_value(e) or z3.is_int_value(e) or z3.is_true(e) or z3.is_false(e):
+                return e
+            key = e.get_id()
+            if key not in cache:
+                cache[key] = z3.Const('pure!%d' % len(cache), e.sort())
+            return cache[key]
+        return e
+    return [walk(z3.simplify(e)) for e in exprs]
+
+
+def prove_pure(hyps, goal, timeout_ms=20000):
+    """returns ('unsat'|'sat'|'unknown', model) for hyps & not goal after purification"""
+    try:
+        ph = purify(list(hyps) + [z3.Not(goal)])
+    except ValueError:
+        return 'unknown', None
+    for tactic in (None, 'qfnra-nlsat'):
+        s = z3.Solver() if tactic is None else z3.Tactic(tactic).solver()
+        s.set('timeout', timeout_ms // 2)
+        for h in ph:
+            s.add(h)
+        r = s.check()
+        if r == z3.unsat:
+            return 'unsat', None
+        if r == z3.sat:
+            return 'sat', s.model()
+    return 'unknown', None
